@@ -4,6 +4,7 @@
 use std::collections::HashMap;
 use vharness::*;
 
+mod diag;
 mod docsession;
 mod docsync;
 mod format;
@@ -37,6 +38,7 @@ fn main() {
     let summary = match mode.as_str() {
         "script" => script::run(cases, max_fail, &opts),
         "docsync" => docsync::run(cases, max_fail, &opts),
+        "diag" => diag::run(cases, max_fail, &opts),
         "format" => format::run(cases, max_fail, &opts),
         "docsession" => docsession::run_sessions(cases, max_fail, &opts),
         "roundtrip" => docsession::run_roundtrip(cases, max_fail, &opts),
